@@ -303,7 +303,10 @@ class Case:
 
 
 def run(ctx):
+    import time
     rng = ctx.rng
+    t0 = time.time()
+    phases = ctx.cov.setdefault("phase_seconds", {})
     pairs_s = []  # (newer, older, masks, label)
 
     def add_pair(newer, p_del, label):
@@ -329,9 +332,16 @@ def run(ctx):
         ctx.count("fields_deleted", sum(1 for m in masks for b in m if not b))
         ctx.count("fields_kept", sum(1 for m in masks for b in m if b))
 
-    prelude = "\n".join(
-        f"Definition scN{i} : schema := {newer.coq()}.\nDefinition scO{i} : schema := drop_fields {masks_coq(masks)} scN{i}."
-        for i, (newer, older, masks, label) in enumerate(pairs_s))
+    # each distinct newer schema is defined (and normalised) once; the OLDER schema of the model is computed in Coq by drop_fields
+    defs, names = [], {}
+    for i, (newer, older, masks, label) in enumerate(pairs_s):
+        if id(newer) not in names:
+            names[id(newer)] = f"scN{i}"
+            defs.append(f"Definition scN{i} : schema := Eval vm_compute in {newer.coq()}.")
+        else:
+            defs.append(f"Definition scN{i} : schema := {names[id(newer)]}.")
+        defs.append(f"Definition scO{i} : schema := Eval vm_compute in drop_fields {masks_coq(masks)} scN{i}.")
+    prelude = "\n".join(defs)
 
     cases = []
     # ---- regression corpus first
@@ -361,6 +371,8 @@ def run(ctx):
             for kind, bs, inserted in variants(ctx, newer.classes[ci], b1, rng, budget=3):
                 cases.append(Case(pi, ci, kind, bs, inserted, m, True))
 
+    phases["generate"] = round(time.time() - t0, 1)
+    t0 = time.time()
     # ---- evaluate the implementation, build the T2 pairs, run the oracle
     pairs, meta = [], []
     for case in cases:
@@ -375,7 +387,9 @@ def run(ctx):
                      input=describe(case, newer, older, masks), traceback=traceback.format_exc()[-1500:])
     ctx.cov["evaluations"] += len(cases)
 
-    bad = lib.coq_compare(ctx, "c08", IMPORTS, pairs, chunk=24 if not ctx.thorough else 60, prelude=prelude)
+    phases["implementation+oracle"] = round(time.time() - t0, 1)
+    t0 = time.time()
+    bad = lib.coq_compare(ctx, "c08", IMPORTS, pairs, chunk=48 if not ctx.thorough else 96, prelude=prelude)
     for i in bad[:20]:
         case = meta[i]
         newer, older, masks, label = pairs_s[case.pi]
@@ -385,7 +399,10 @@ def run(ctx):
                  input=d, theorem_or_correspondence="T2 correspondence Model/Decode.v, Encode.v, C08Step.v <-> betterproto")
     ctx.cov["disagreements_checked"] = len(pairs)
 
+    phases["coq_compare"] = round(time.time() - t0, 1)
+    t0 = time.time()
     t3(ctx, rng)
+    phases["t3"] = round(time.time() - t0, 1)
     for newer, older, masks, label in pairs_s:
         older.dispose()
     seen = set()
